@@ -223,9 +223,11 @@ def _cex(trace, entry):
     for st in trace:
         if st.get("stepType") != "assignment":
             continue
-        fn = (st.get("sourceLocation") or {}).get("function", "")
+        sl_ = st.get("sourceLocation") or {}
+        fn = sl_.get("function", "")
         lhs = st.get("lhs", "")
-        if fn != entry or not lhs or lhs.startswith("__") or "$" in lhs or "return_value" in lhs:
+        in_harness = fn == entry or os.path.basename(sl_.get("file", "")).startswith("h_")
+        if not in_harness or not lhs or lhs.startswith("__") or "$" in lhs or "return_value" in lhs:
             continue
         if lhs.endswith("_wrapper"):
             continue
